@@ -2,18 +2,18 @@ SPECIFICATION DSpec
 CONSTANTS
   MaxRank = 2
   Variant = "none"
-  MaxChain = 0
-  MaxIters = {0, 1, 2, 3}
-  MaxFuns = {1, 2, 4, 6}
-  MaxLss = {1, 2, 3}
+  MaxChain = 1
+  MaxIters = {0, 1, 2}
+  MaxFuns = {1, 2, 4}
+  MaxLss = {1, 2}
   MaxCors = {1, 2}
-  TargetKinds = {"none", "float", "call"}
-  GtolKinds = {"float", "call"}
-  CbStops = {0, 1, 2, 3}
-  Upds = {"none", "ident", "rewrite"}
-  Scalers = {FALSE, TRUE}
+  TargetKinds = {"none", "float"}
+  GtolKinds = {"float"}
+  CbStops = {0, 1, 2}
+  Upds = {"rewrite"}
+  Scalers = {FALSE}
   Envs = {"any"}
-  Faults = TRUE
+  Faults = FALSE
 INVARIANT I_C04_Documented
 INVARIANT I_C04_TruthPGTOL
 INVARIANT I_C04_TruthTARGET
